@@ -285,7 +285,11 @@ class UnitRegistry:
         # entries are immutable tuples; copying the sympy dimension objects
         # would break identity with unyt's dimension singletons
         lut = dict(self.lut)
-        return type(self)(lut=lut)
+        # the table is complete: adding the default symbols again would undo
+        # modify() and remove() of default symbols
+        return type(self)(
+            add_default_symbols=False, lut=lut, unit_system=self.unit_system
+        )
 
 
 class _NonModifiableUnitRegistry(UnitRegistry):
